@@ -45,12 +45,17 @@ def gen_cases(ctx):
                    cols=rng.choice([1, 2, 4]), vec=rng.random() < 0.15, zero_col=rng.random() < 0.2, shifts=rng.choice(["none", "scalar", "vector", "batched"]),
                    precond=rng.choice([None, None, "jacobi", "exact"]), tol=rng.choice([1e-4, 1e-8, 1e-14]), max_iter=rng.choice([None, None, "n", "half"]),
                    nq=rng.choice([7, 15, 25]), inverse=rng.random() < 0.6, lhs=rng.random() < 0.4, precond_size=rng.choice([None, None, 2]),
-                   clause=rng.choice(["trace", "trace", "scaling", "additivity"]), seed=rng.randrange(1 << 30))
+                   clause=rng.choice(["trace", "trace", "scaling", "additivity"]), seed=rng.randrange(1 << 30),
+                   mixed_scale=rng.random() < 0.25)
 
 
 def _mat(case, g):
     dt = zoo.DT[case["dtype"]]
     A64 = zoo.pd_matrix(g, case["n"], case["batch"], kappa=case["kappa"], family=case["family"])
+    if case.get("mixed_scale") and case["batch"]:
+        # systems solved together whose solutions differ by orders of magnitude: the first member is tiny and well conditioned
+        idx = (0,) * len(case["batch"])
+        A64[idx] = 1e-3 * zoo.pd_matrix(g, case["n"], [], kappa=1.2, family="uniform")
     A = A64.to(dt)
     A64 = A.to(torch.float64)
     return dt, A, (A64 + A64.mT) / 2
@@ -177,6 +182,18 @@ def run_minres(case, ctx):
         ctx.fail("stop_is_consistent", "value", detail=f"stopped after {kreached} iterations without meeting the update criterion (budget {budget})", **kw)
     else:
         ctx.ok("stop_is_consistent", kb + ("|tol" if stopped_by_tol else "|budget"), n >= 2)
+    if stopped_by_tol and len(iters) >= 2 and iters[-1]["i"] == convs[-1]["i"] and iters[-2]["i"] == convs[-1]["i"] - 1:
+        # the documented criterion, recomputed from the recorded iterates and not from the value the solver reports: the mean over
+        # all systems (shifts x batch x columns) of ||x_i - x_{i-1}|| / ||x_i||
+        xi, xp = iters[-1]["solution"].to(torch.float64), iters[-2]["solution"].to(torch.float64)
+        mine = float(((xi - xp).norm(dim=-2) / xi.norm(dim=-2)).mean())
+        # x_i - x_{i-1} is formed from rounded iterates (the solver norms the update before adding it): a factor, not an epsilon
+        slack = 1.0 if dt == torch.float64 else 3.0
+        if not mine < convs[-1]["tolerance"] * (1 + slack) + 1e-300:
+            ctx.fail("stop_criterion_recomputed", "value", err=mine, detail=f"stopped on the update criterion at iteration {convs[-1]['i']} although the mean relative update of "
+                     f"the systems is {mine:.3e} (tolerance {convs[-1]['tolerance']:.1e}; the solver reported {convs[-1]['conv']:.3e})", **kw)
+        else:
+            ctx.ok("stop_criterion_recomputed", kb, n >= 2)
     Rfin = (B64.unsqueeze(0) - S @ X64).norm(dim=-2, keepdim=True) / bn.masked_fill(zero, 1.0)
     Rfin = Rfin * live
     # without re-orthogonalisation the Lanczos vectors inside MINRES lose orthogonality as kappa and the step count grow, and the
@@ -222,7 +239,8 @@ def run_minres(case, ctx):
         r2, ex = compare.attempt(run, B * 2.5)
         if ex is None and torch.isfinite(r2[0]).all():
             e = compare.relerr(r2[0], X * 2.5, scale=1e-300)
-            if not e <= 1e-5 * max(kapS, 1.0) + 1e4 * kapS * eps:
+            # the scaled run may stop one check later / earlier (rounding of the normalised rhs): agreement up to the stopping tolerance
+            if not e <= max(1e-5, 10 * case["tol"]) * max(kapS, 1.0) + 1e4 * kapS * eps:
                 ctx.fail("scaling_linearity", "value", err=e, **kw)
             else:
                 ctx.ok("scaling_linearity", kb, n >= 2)
